@@ -1,3 +1,103 @@
-(* placeholder: theorems follow *)
-From CC Require Import Model.Circuit.
-Example C12_model_runs : True. Proof. exact I. Qed.
+(* Properties/C12.v — transient simulation: what holds at every sample, whatever integrator produced the states.
+   TransientSolution hands the solver  StateSpaceModel(A, B, I, 0), u[k] = input[sources[k]](t), t, x0 = 0  and reads
+   every quantity at every sample as  c_row . x + d_row . u  (Model/StateSpace.v: the transient_ and out_ definitions).
+   Proofs: Theory/StateSpaceThm.v.  Hypotheses as in Properties/C10.v. *)
+From Coq Require Import List Bool ZArith NArith QArith Qcanon.
+From CC Require Import Theory.Field Theory.Complex Model.Network Model.StateSpace Model.Circuit Theory.Spec Theory.Api
+  Theory.Matrix Theory.StateSpaceThm.
+Import ListNotations.
+Local Open Scope nat_scope.
+
+(* C12 "KCL at every node at every sample, capacitor current = C dv/dt, inductor voltage = L di/dt, ...": for EVERY state
+   vector x and input vector u (in particular the pair at any sample), with dx := A x + B u the derivative the
+   simulated differential equation assigns to that sample, the reported potentials phi, voltages and currents j satisfy
+     phi(reference) = 0, voltage of b = phi(first) - phi(second), Kirchhoff's current law at every node,
+     capacitor k: voltage = x_k, current = C_k * dx_k;      inductor k: current = x_(nC+k), voltage = L_k * dx_(nC+k);
+     ideal voltage source: voltage = its input;  current source: current = its input;  other branches: i = Y v. *)
+Theorem C12_laws_every_sample : forall (K : fops) (KOK : fops_ok K) (n : network K) (cvals lvals : list (label * K)),
+  (forall k, k < ss_nst K cvals lvals -> nth k (lam K cvals lvals) (f0 K) <> f0 K) ->
+  rlc_dc K n cvals lvals ->
+  forall m : ssm K, state_space_matrices K n cvals lvals = Ok m ->
+  forall x u : list K, length x = ss_nst K cvals lvals -> length u = ss_nS K n lvals ->
+  exists (phi : label -> K) (j : branch K -> K),
+     (forall node, node = zero n \/ In node (node_index n) -> out_potential K n cvals lvals m node x u = Ok (phi node))
+  /\ (forall b, In b (branches n) ->
+        out_voltage K n cvals lvals m (bid b) x u = Ok (bvolt phi b) /\ out_current K n cvals lvals m (bid b) x u = Ok (j b))
+  /\ phi (zero n) = f0 K
+  /\ (forall node, kcl_sum (branches n) j node = f0 K)
+  /\ (forall b, In b (branches n) -> lmem (bid b) (ckeys K cvals) = true ->
+        bvolt phi b = nth (lindex (ckeys K cvals) (bid b)) x (f0 K)
+        /\ j b = fmul K (vlookup K cvals (bid b)) (nth (lindex (ckeys K cvals) (bid b)) (ss_xdot K m x u) (f0 K)))
+  /\ (forall b, In b (branches n) -> lmem (bid b) (lkeys K lvals) = true ->
+        j b = nth (ss_nC K cvals + lindex (lkeys K lvals) (bid b)) x (f0 K)
+        /\ bvolt phi b = fmul K (vlookup K lvals (bid b))
+                                (nth (ss_nC K cvals + lindex (lkeys K lvals) (bid b)) (ss_xdot K m x u) (f0 K)))
+  /\ (forall b, In b (branches n) -> is_ideal_voltage_source (el b) = true -> lmem (bid b) (lkeys K lvals) = false ->
+        bvolt phi b = nth (lindex (sources K n lvals) (bid b)) u (f0 K))
+  /\ (forall b, In b (branches n) -> is_current_source (el b) = true ->
+        j b = nth (lindex (sources K n lvals) (bid b)) u (f0 K))
+  /\ (forall b, In b (branches n) -> lmem (bid b) (ckeys K cvals) = false -> is_ideal_voltage_source (el b) = false ->
+        is_current_source (el b) = false -> j b = fmul K (finY b) (bvolt phi b)).
+Proof. exact ss_laws. Qed.
+Print Assumptions C12_laws_every_sample.
+
+(* C12 "start from rest": the solver [sim] (a Section variable of the model: any function) is called with the nodal A, B,
+   with C = I and D = 0, with the input signals in the order of [sources], and with the zero initial state *)
+Theorem C12_solver_call : forall (K : fops) (n : network K) (cvals lvals : list (label * K)) (T sig : Type)
+  (sim : ssm K -> list sig -> T -> list K -> list sig) (input : label -> T -> sig) (m : ssm K) (tin : T),
+  transient_states K n cvals lvals T sig sim input m tin =
+  sim {| ss_A := ss_A m; ss_B := ss_B m; ss_C := ident (ss_nst K cvals lvals);
+         ss_D := map (fun _ => zero_row K (ss_nS K n lvals)) (seq 0 (ss_nst K cvals lvals)) |}
+      (map (fun id => input id tin) (sources K n lvals)) tin (zero_row K (ss_nst K cvals lvals)).
+Proof. exact transient_call. Qed.
+Theorem C12_rest : forall (K : fops) (cvals lvals : list (label * K)),
+  length (transient_x0 K cvals lvals) = ss_nst K cvals lvals /\ forall k, nth k (transient_x0 K cvals lvals) (f0 K) = f0 K.
+Proof. exact transient_rest. Qed.
+(* C12 "row k of the input matrix is input[sources[k]]" *)
+Theorem C12_input_order : forall (K : fops) (n : network K) (lvals : list (label * K)) (T sig : Type)
+  (input : label -> T -> sig) (tin : T),
+  length (transient_u K n lvals T sig input tin) = length (sources K n lvals)
+  /\ forall k, k < length (sources K n lvals) ->
+       nth_error (transient_u K n lvals T sig input tin) k = Some (input (nth k (sources K n lvals) []) tin).
+Proof. exact transient_input_order. Qed.
+Print Assumptions C12_solver_call.
+Print Assumptions C12_rest.
+Print Assumptions C12_input_order.
+
+(* ---- non-vacuity: the circuit of Properties/C10.v (inductors listed Lb, La; current source M1 between them and Vs) ---- *)
+From Coq Require Import String.
+Local Open Scope string_scope.
+Definition q (a : Z) (b : positive) : Qcops := qc a b.
+Definition ex_net : network Qcops :=
+  {| zero := lbl "0";
+     branches := [ Build_branch (lbl "2") (lbl "3") (impedance (lbl "Lb") (q 0 1));
+                   Build_branch (lbl "1") (lbl "2") (resistor (lbl "R1") (q 2 1));
+                   Build_branch (lbl "0") (lbl "3") (current_source (lbl "M1") (q 1 1) (q 0 1));
+                   Build_branch (lbl "2") (lbl "0") (impedance (lbl "La") (q 0 1));
+                   Build_branch (lbl "3") (lbl "0") (admittance (lbl "C1") (q 0 1));
+                   Build_branch (lbl "3") (lbl "0") (resistor (lbl "R2") (q 5 1));
+                   Build_branch (lbl "1") (lbl "0") (voltage_source (lbl "Vs") (q 1 1) (q 0 1)) ] |}.
+Definition ex_c : list (label * Qcops) := [(lbl "C1", q 1 2)].
+Definition ex_l : list (label * Qcops) := [(lbl "Lb", q 2 1); (lbl "La", q 3 1)].
+
+Example C12_example_hyp : rlc_dcb ex_net ex_c ex_l = true /\ lam_nzb ex_c ex_l = true.
+Proof. vm_compute. split; reflexivity. Qed.
+Example C12_example_rlc : rlc_dc Qcops ex_net ex_c ex_l.
+Proof. exact (rlc_dcb_ok ex_net ex_c ex_l (proj1 C12_example_hyp)). Qed.
+(* observers at the sample x = (1, 2, 3), u = (5, 7): KCL at node 3 (Lb arrives; M1 arrives; C1, R2 leave) and at node 2;
+   capacitor current = C * (A x + B u)_0; voltage across La = L * (A x + B u)_2 *)
+Definition cur (m : ssm Qcops) (id : string) (x u : list Qcops) : Qcops :=
+  match out_current Qcops ex_net ex_c ex_l m (lbl id) x u with Ok a => a | Err _ => q 0 1 end.
+Definition vol (m : ssm Qcops) (id : string) (x u : list Qcops) : Qcops :=
+  match out_voltage Qcops ex_net ex_c ex_l m (lbl id) x u with Ok a => a | Err _ => q 0 1 end.
+Example C12_example_sample :
+  match state_space_matrices Qcops ex_net ex_c ex_l with
+  | Ok m => let x := [q 1 1; q 2 1; q 3 1] in let u := [q 5 1; q 7 1] in
+            Qc_eq_bool (cur m "Lb" x u + cur m "M1" x u - cur m "C1" x u - cur m "R2" x u)%Qc (q 0 1)
+            && Qc_eq_bool (cur m "R1" x u - cur m "Lb" x u - cur m "La" x u)%Qc (q 0 1)
+            && Qc_eq_bool (cur m "C1" x u) (q 1 2 * nth 0 (ss_xdot Qcops m x u) (q 0 1))%Qc
+            && Qc_eq_bool (vol m "La" x u) (q 3 1 * nth 2 (ss_xdot Qcops m x u) (q 0 1))%Qc
+            && negb (Qc_eq_bool (cur m "C1" x u) (q 0 1))
+  | Err _ => false
+  end = true.
+Proof. vm_compute. reflexivity. Qed.
